@@ -181,6 +181,7 @@ theorem Cons.mono {G G' : Nat → Option D} (h : ∀ i a, G i = some a → G' i 
   | .str _, _ => by simp [Cons]
   | .bin _ _, _ => by simp [Cons]
   | .leaf _ _ _ _, _ => by simp [Cons]
+  | .obj _ _ _ _, _ => by simp [Cons]
 theorem ConsList.mono {G G' : Nat → Option D} (h : ∀ i a, G i = some a → G' i = some a) :
     ∀ (ts : List V), ConsList G ts → ConsList G' ts
   | [], _ => by simp [ConsList]
